@@ -339,6 +339,11 @@ class MainModel:
             if inf and inf.get("kind") == "Writer":
                 p.trace.append(("drop_writer",))
             return None
+        if re.search(r"std::thread::|thread::Builder|thread::spawn|thread::scope|(^|::)Builder::(stack_size|spawn|spawn_scoped|spawn_unchecked)|JoinHandle::<.*>::join|(^|::)ScopedJoinHandle", fn):
+            # C18: the depth limits were chosen against the main thread's stack; the translation must run there
+            self.rep.bad("K6.thread", "main() runs the translation on the thread the process started on (its default main-thread stack), never on a spawned thread with a stack size of xt's own choosing",
+                         {"kind": "thread", "call": re.sub(r"<.*", "", fn)[:80]})
+            raise X.Done("dead")
         if re.search(r"(^|::)parse_args$", fn):
             r = fresh("parse")
             cli = proj(r, "Ok.0")
